@@ -22,7 +22,8 @@ Definition run_acl_platform (c c' : cfg) (lines : list string) : val :=
        do back <- acl_set_platform c' c conv;
        do again <- acl_set_platform c c' back;
        Ok (VL [VL (map (fun i => VS (render_item c' i)) conv);
-               VB (conv_okb (plat c) (is15 c) (is_nxos (plat c')) (map to_item items) (map to_item conv));
+               VB (splittable_okb (plat c) (is15 c) (map to_item items)
+                   && conv_okb (plat c) (is15 c) (is_nxos (plat c')) (map to_item items) (map to_item conv));
                VB (list_eqb String.eqb (map (render_item c') conv) (map (render_item c') again))])).
 
 (** a single ACE *)
